@@ -413,6 +413,7 @@ def spec_visibility():
         o = VisibilityGraph(ts, silence_level=3)
         o._verif_ts = ts
         o._verif_explicit_w = False
+        o.set_link_attribute("w", sym_attr(rng, o.adjacency))
         return o
 
     def twin(o):
